@@ -16,6 +16,27 @@ CHECKS = {
             'Every completion order and batch (<=2 quick, <=3 thorough) of every DAG shape up to n=4 (quick) / n=5 (thorough) x requested subset x pre-cached subset is executed on the real coordinator; returned dict compared with an independent sequential reference. Real SerialRunner runs are checked with the same oracle and replayed against the schedule-controlling runner.',
             'Trusted: SchedRunner follows the documented Runner contract (bound by spy-trace replay of the real SerialRunner and of the real ProcessRunner over the virtual multiprocessing layer); bounds as stated in evidence.rule.',
             'E1+E2', '5/C01'),
+    'C02': (MC, 'stateless exhaustive schedule exploration; submit-time and dependency-read oracle vs construction spec',
+            'At every submit_task(use_cache=False) seen by the schedule-controlling runner every reference dependency has already been yielded; every dependency read inside run() (bodies run at completion time) returns the real value of this run or raises TaskError iff the dependency failed. All completion orders of all DAG shapes n<=4/5, placements at every nesting form, single/double faults.',
+            'Trusted: SchedRunner contract conformance (spy-trace replay); harness tasks read every dependency.', 'E1+E2', '5/C02'),
+    'C03': (MC, 'stateless exhaustive schedule exploration with execution/load counting vs cache-aware reference closure',
+            'Executions and loads counted per equality class at the runner for every schedule of every DAG x duplication pattern x pre-cached subset x request variant; executed+loaded set must equal the reference needed closure; result_meta checked on every instance by identity.',
+            'Trusted: reference closure computed from the construction spec; SchedRunner conformance.', 'E1+E2', '5/C03'),
+    'C04': (MC, 'stateless exhaustive schedule exploration; in-flight-per-type invariant at every submit',
+            'Per-type max_parallel checked at every submit in every schedule of every DAG shape x type assignment over {None,1,2,3}, including multi-task batches and failing/dying tasks; real SerialRunner slice. (max_workers on the real ProcessExecutor is covered by the virtual-multiprocessing slice.)',
+            'Trusted: in-flight set of SchedRunner = tasks submitted and not yet yielded.', 'E1+E2(+E3)', '5/C04'),
+    'C05': (MC, 'stateless exhaustive schedule exploration; rest-point maximality invariant at every wait',
+            'At every Runner.wait call in every schedule: for every type, no needed task with all reference dependencies finished is left unsubmitted unless the type is at its cap. DAG shapes n<=4/5 x type assignments x faults x empty polls.',
+            'Trusted: readiness computed from the construction spec and the completions the coordinator has been told about.', 'E1+E2(+E3)', '5/C05'),
+    'C10': (MC, 'stateless exhaustive schedule exploration over fault sets (raise / worker died) x continue_on_failure',
+            'Every schedule of every DAG shape n<=4 x requested subset x fault set (<=1 quick, <=2 thorough) x kind x continue_on_failure: return/raise outcome, returned values, executed set, cache contents and LabError cause checked against the reference; no submit after the raise.',
+            'Trusted: harness tasks read all their dependencies, so a task below a failed one fails with TaskError.', 'E1+E2', '5/C10'),
+    'C11': (MC, 'stateless exhaustive schedule exploration; spin / horizon detection at the Runner seam',
+            'In every schedule (faults, deaths, limits incl. max_parallel=1, empty polls) the coordinator never calls wait() with nothing in flight while work remains and finishes within 4n+8 waits.',
+            'Logical termination only; wall-clock boundedness is sampled by real-backend runs.', 'E1+E2(+E3)', '5/C11'),
+    'C17': (MC, 'stateless exhaustive schedule exploration with reference liveness; all label permutations for set order',
+            'remove_results / get_result / retained-set at every rest point and at close checked against reference liveness (direct executing dependents) in every schedule, for all label permutations (n<=3 quick, n<=4 thorough) x fault sets; same oracle on the real SerialRunner results_map through a pass-through spy.',
+            'Trusted: SchedRunner runs bodies at completion time so premature release also surfaces as a failed read.', 'E1+E2', '5/C17'),
 }
 
 PENDING = {
